@@ -3,6 +3,7 @@ package rules
 import (
 	"fmt"
 	"go/token"
+	"go/types"
 	"strings"
 
 	"dtnverif/core"
@@ -691,6 +692,7 @@ func checkPerPeerGoroutines(p *core.Program, r *core.Report) {
 	checkConstraintsPersisted(p, r)
 	checkFragmentIdentity(p, r)
 	checkServedAfterSent(p, r)
+	checkAcknowledgedNotDroppedOnStop(p, r)
 	// a reservation that is never released (released under another key) shuts the bundle out of every later retry
 	checkDispatchExclusive(p, r)
 	checkPropertiesPersisted(p, r)
@@ -888,7 +890,6 @@ func deleteAfterwardsSound(phi *ssa.Phi) bool {
 	return fromAlgo
 }
 
-
 // isChosenByAlgorithmFlag: v (in closure cl of forward) is the load of a captured boolean of forward whose stores are
 // `false` or a `true` placed in the very block that invokes Algorithm.SenderForBundle.
 func isChosenByAlgorithmFlag(fwd, cl *ssa.Function, v ssa.Value) bool {
@@ -970,4 +971,44 @@ func checkServedAfterSent(p *core.Program, r *core.Report) {
 	r.Min("Send invocations in forward", 1)
 	r.Count("Send invocations in forward", nSend)
 	r.Check(told, "served-after-sent/"+fname(fwd)+"/success-reaches-the-algorithm", "the routing algorithm is told when a transmission it selected has succeeded, so that a peer is recorded as served by a transmission and not by its selection", p.Pos(fwd.Pos()), "", "forward invokes the algorithm only to select (SenderForBundle, which persists the peer in routing/<algo>/sent) and on failure (ReportFailure): a shutdown while the Send is in flight leaves the peer recorded as served, after the restart the bundle is never offered to it")
+}
+
+// checkAcknowledgedNotDroppedOnStop - necessary for "a bundle received from a peer stays in the persistent store ...
+// across node restarts": a convergence layer acknowledges a bundle to its sender when it hands the bundle up as a
+// ConvergenceStatus; from there it travels through the element's handler, the Manager's channels and the Core's handler
+// to Store.Push. A forwarding step that is a select between "pass the status on" and "the stop signal" throws the
+// status - possibly an acknowledged bundle - away at an orderly shutdown.
+func checkAcknowledgedNotDroppedOnStop(p *core.Program, r *core.Report) {
+	var drops []string
+	n := 0
+	for _, fn := range p.RepoFuncs() {
+		if fn.Pkg != p.Pkg(claPkg) || fn.Blocks == nil {
+			continue
+		}
+		core.EachInstr(fn, func(in ssa.Instruction) {
+			sel, ok := in.(*ssa.Select)
+			if !ok {
+				return
+			}
+			forwards, stops := false, false
+			for _, st := range sel.States {
+				if st.Dir == types.SendOnly && st.Send != nil && core.TypeIs(st.Send.Type(), claPkg, "ConvergenceStatus") {
+					forwards = true
+				}
+				if st.Dir == types.RecvOnly && pathEndsWith(st.Chan, "stopSyn") {
+					stops = true
+				}
+			}
+			if forwards {
+				n++
+				if stops {
+					drops = append(drops, p.Pos(in.Pos())+" in "+fname(fn))
+				}
+			}
+		})
+	}
+	r.Min("forwarding selects of ConvergenceStatus in pkg/cla", 1)
+	r.Count("forwarding selects of ConvergenceStatus in pkg/cla", n)
+	fw := p.Func(claPkg, "Manager", "forward")
+	r.Check(len(drops) == 0, "acknowledged-stays/"+fname(fw)+"/not-dropped-on-stop", "a status handed up by a convergence layer (a received, already acknowledged bundle) is not discarded on its way to the Core by a select against the stop signal", p.Pos(fw.Pos()), "", "dropped on stop at "+strings.Join(drops, "; ")+": bundles acknowledged to their sender (its Send returned nil) that are still in the channels between the CLA and the Core are lost at an orderly shutdown")
 }
